@@ -77,15 +77,16 @@ type tierParams struct {
 	// max sequences per configuration, by family
 	budLevels, budEmit, budFlap, budBatch int
 	full                                  bool
+	workers                               int
 	nRandCfg                              int
 	nRandSeq                              int
 	randLen                               int
 }
 
 var quickParams = tierParams{lcap: 3, lcapFlap: 6, budLevels: 4096, budEmit: 600, budFlap: 1100, budBatch: 1000,
-	nRandCfg: 40, nRandSeq: 15, randLen: 12}
-var thoroughParams = tierParams{lcap: 5, lcapFlap: 8, budLevels: 270000, budEmit: 40000, budFlap: 20000, budBatch: 40000,
-	full: true, nRandCfg: 400, nRandSeq: 40, randLen: 30}
+	workers: 3, nRandCfg: 40, nRandSeq: 15, randLen: 12}
+var thoroughParams = tierParams{lcap: 5, lcapFlap: 8, budLevels: 270000, budEmit: 8000, budFlap: 4100, budBatch: 8000,
+	full: true, workers: 6, nRandCfg: 200, nRandSeq: 30, randLen: 30}
 
 func has(i, w, c bool) [3]bool { return [3]bool{i, w, c} }
 
@@ -135,6 +136,13 @@ func plans(tp tierParams) []plan {
 			// quick: one 16-class configuration at full depth, the others one step shorter
 			bud = tp.budLevels / 8
 		}
+		if tp.full && c.Rst != has(T, T, T) {
+			// thorough: the all-resets configuration (64 classes) gets the large budget
+			bud = 5000
+			if i == 1 {
+				bud = 70000
+			}
+		}
 		add(c, one, tp.lcap, bud)
 	}
 	// the level family once in batch form (per-point levels, highest wins)
@@ -183,7 +191,7 @@ func plans(tp tierParams) []plan {
 					if (s.on != nr) || tp.full {
 						// pairwise in quick: two-level variants on the off-diagonal
 						bud := tp.budFlap
-						if !tp.full && f.H != 3 {
+						if (!tp.full && f.H != 3) || (tp.full && (b || f.H != 3)) {
 							bud = tp.budFlap / 4
 						}
 						add(Cfg{Has: has(F, T, T), Sco: s.on, Scod: s.d, NoRec: nr, Flap: T, Flo: f.lo, Fhi: f.hi, H: f.H, Batch: b}, one, tp.lcapFlap, bud)
@@ -207,7 +215,7 @@ func plans(tp tierParams) []plan {
 					if s.d > 0 && hs == has(F, F, T) {
 						dts = onetwo
 					}
-					add(Cfg{Has: hs, Sco: s.on, Scod: s.d, NoRec: nr, All: all, H: 2, Batch: T}, dts, tp.lcap, tp.budBatch)
+					add(Cfg{Has: hs, Sco: s.on, Scod: s.d, NoRec: nr, All: all, H: 2, Batch: T}, dts, min(tp.lcap, 4), tp.budBatch)
 				}
 			}
 		}
@@ -324,69 +332,108 @@ func Run(r *rt.Run) error {
 	if r.Thorough() {
 		tp = thoroughParams
 	}
-	x, err := NewExec()
-	if err != nil {
-		return err
-	}
-	defer x.Close()
 	t := r.NewTrace("trace")
 	nid := 0
 	cfgSeen := map[Cfg]bool{}
 	maxL, minL := 0, 1<<30
+	nseq := 0
 
-	runBatch := func(cfg Cfg, seqs []Seq) {
+	// Pipeline: the producer (this goroutine's closure below) enumerates chunks in a
+	// fixed order; tp.workers executors - each with its own TaskMaster, alert service
+	// and diagnostics - run them on real tasks concurrently; the main goroutine
+	// writes the results in production order, so the trace file is deterministic.
+	type job struct {
+		cfg  Cfg
+		seqs []Seq
+		ids  []string
+		doc  bool
+		done chan [][]stepObs
+	}
+	jobs := make(chan *job, tp.workers)
+	order := make(chan *job, 2*tp.workers)
+	execs := make([]*Exec, tp.workers)
+	for w := range execs {
+		x, err := NewExec()
+		if err != nil {
+			return err
+		}
+		execs[w] = x
+		go func() {
+			for j := range jobs {
+				j.done <- x.Run(j.cfg, j.seqs, j.ids)
+			}
+		}()
+	}
+	submit := func(cfg Cfg, seqs []Seq, doc bool) {
 		ids := make([]string, len(seqs))
 		for i := range seqs {
 			nid++
 			ids[i] = fmt.Sprintf("s%d", nid)
 		}
-		obs := x.Run(cfg, seqs, ids)
-		for i, s := range seqs {
-			emit(t, cfg, ids[i], s, obs[i])
-			if len(s) >= 2 {
-				t.Distinct(cfg.String() + "#" + s.key())
+		j := &job{cfg: cfg, seqs: seqs, ids: ids, doc: doc, done: make(chan [][]stepObs, 1)}
+		order <- j
+		jobs <- j
+	}
+	go func() {
+		// the documented worked example with its numeric thresholds (first, so that it
+		// also shows up in the evidence samples)
+		dc, ds := docExample()
+		submit(dc, ds, true)
+		// systematic part
+		for _, p := range plans(tp) {
+			cfgSeen[p.cfg] = true
+			if p.L > maxL {
+				maxL = p.L
+			}
+			if p.L < minL {
+				minL = p.L
+			}
+			var chunk []Seq
+			steps := 0
+			enumerate(p.alpha, p.L, func(s Seq) {
+				chunk = append(chunk, s)
+				steps += len(s)
+				nseq++
+				if steps+p.L > maxChunkSteps {
+					submit(p.cfg, chunk, false)
+					chunk, steps = nil, 0
+				}
+			})
+			if len(chunk) > 0 {
+				submit(p.cfg, chunk, false)
+			}
+		}
+		// random part
+		for i := 0; i < tp.nRandCfg; i++ {
+			c := randomCfg(r.Rand)
+			cfgSeen[c] = true
+			seqs := make([]Seq, tp.nRandSeq)
+			for j := range seqs {
+				seqs[j] = randomSeq(r.Rand, c, tp.randLen)
+			}
+			submit(c, seqs, false)
+		}
+		close(jobs)
+		close(order)
+	}()
+	for j := range order {
+		obs := <-j.done
+		for i, s := range j.seqs {
+			emit(t, j.cfg, j.ids[i], s, obs[i])
+			if j.doc {
+				t.Distinct("doc#" + s.key() + fmt.Sprint(i))
+			} else if len(s) >= 2 {
+				t.Distinct(j.cfg.String() + "#" + s.key())
 			}
 		}
 	}
-
-	// the documented worked example with its numeric thresholds (first, so that it
-	// also shows up in the evidence samples)
-	runDocExample(x, t, &nid)
-
-	// systematic part
-	nseq := 0
-	for _, p := range plans(tp) {
-		cfgSeen[p.cfg] = true
-		if p.L > maxL {
-			maxL = p.L
-		}
-		if p.L < minL {
-			minL = p.L
-		}
-		var chunk []Seq
-		steps := 0
-		enumerate(p.alpha, p.L, func(s Seq) {
-			chunk = append(chunk, s)
-			steps += len(s)
-			nseq++
-			if steps+p.L > maxChunkSteps {
-				runBatch(p.cfg, chunk)
-				chunk, steps = nil, 0
-			}
-		})
-		if len(chunk) > 0 {
-			runBatch(p.cfg, chunk)
-		}
-	}
-	// random part
-	for i := 0; i < tp.nRandCfg; i++ {
-		c := randomCfg(r.Rand)
-		cfgSeen[c] = true
-		seqs := make([]Seq, tp.nRandSeq)
-		for j := range seqs {
-			seqs[j] = randomSeq(r.Rand, c, tp.randLen)
-		}
-		runBatch(c, seqs)
+	x := &Exec{}
+	for _, e := range execs {
+		x.Tasks += e.Tasks
+		x.Points += e.Points
+		x.Events += e.Events
+		x.Forwarded += e.Forwarded
+		e.Close()
 	}
 
 	r.Extra["configurations"] = len(cfgSeen)
@@ -403,11 +450,10 @@ func Run(r *rt.Run) error {
 	return nil
 }
 
-// runDocExample drives the documented numeric configuration (pipeline/alert.go)
-// with the documented value sequence and every 3-sequence over one value per
-// threshold region.
-func runDocExample(x *Exec, t *rt.Trace, nid *int) {
-	cfg := Cfg{Has: has(true, true, true), Rst: has(true, true, true), H: 2}
+// docExample is the documented numeric configuration (pipeline/alert.go) with the
+// documented value sequence and every 3-sequence over one value per threshold region.
+func docExample() (Cfg, []Seq) {
+	cfg := Cfg{Has: has(true, true, true), Rst: has(true, true, true), H: 2, Numeric: true}
 	cls := func(v int) Pt {
 		return Pt{C: [3]bool{v > 60, v > 70, v > 80}, R: [3]bool{v < 50, v < 60, v < 70}, Dt: 1, V: v}
 	}
@@ -423,15 +469,5 @@ func runDocExample(x *Exec, t *rt.Trace, nid *int) {
 		alpha = append(alpha, Step{Pts: []Pt{cls(v)}})
 	}
 	enumerate(alpha, 3, func(s Seq) { seqs = append(seqs, s) })
-	ids := make([]string, len(seqs))
-	for i := range seqs {
-		*nid++
-		ids[i] = fmt.Sprintf("s%d", *nid)
-	}
-	cfg.Numeric = true
-	obs := x.Run(cfg, seqs, ids)
-	for i, s := range seqs {
-		emit(t, cfg, ids[i], s, obs[i])
-		t.Distinct("doc#" + s.key() + fmt.Sprint(i))
-	}
+	return cfg, seqs
 }
